@@ -13,15 +13,24 @@ for d in sorted(glob.glob('/verif/seeded/C*-[A-Z]')):
     res = m.get('results', {})
     caught = [k.split('/')[0] for k, v in sorted(res.items()) if v.get('rc') == 1]
     missed = [k.split('/')[0] for k, v in sorted(res.items()) if v.get('rc') == 0]
-    rows.append((id, c.get('demo_head'), c.get('demo_patched'), (c.get('suite') or '').split(',')[0], ", ".join(caught) or "-", ", ".join(missed) or "-", first))
+    before = next((v for k, v in m.items() if k.startswith('results_before_')), None)
+    home = id.split('-')[0]
+    if before is not None:
+        b = before.get(home + '/quick', {})
+        first_seen = "caught" if b.get('rc') == 1 else ("missed" if b.get('rc') == 0 else "?")
+    else:
+        first_seen = ""
+    rows.append((id, c.get('demo_head'), c.get('demo_patched'), (c.get('suite') or '').split(',')[0], first_seen, ", ".join(caught) or "-", ", ".join(missed) or "-", first))
 with open('/verif/seeded/SUMMARY.md', 'w') as f:
     f.write("# Seeded changes and the checks that catch them (quick tier)\n\n")
-    f.write("Produced by independent sub-agents that saw only the property text (round 1: -A/-B; round 2, told the round-1 ideas and asked for harder ones: -C/-D). "
-            "`demo on HEAD / with patch` are the exit codes of demo.py (0 = property holds). Each was run by tools/mutant.py in a scratch worktree of /repo's HEAD; "
-            "meta.json in each directory has the details.\n\n")
-    f.write("| id | demo HEAD / patched | suite with patch | caught by | run but not caught by | what it is |\n|---|---|---|---|---|---|\n")
+    f.write("Produced by independent sub-agents that saw only the property text and a scratch worktree (rounds 1-3: letters A-F; from round 2 on they were also told the "
+            "earlier ideas, from round 4 on - letters G and later - a general description of what the checks vary; DESIGN.md section 12). "
+            "`demo on HEAD / with patch` are the exit codes of demo.py (0 = property holds). Each was run by tools/mutant.py in a scratch worktree of /repo's HEAD "
+            "(checks from a snapshot of /verif); meta.json in each directory has the details. `home check when the change arrived` is the verdict of the machinery as it stood "
+            "before it was strengthened for that round (rounds 4+); `caught by` is the current machinery, quick tier unless stated.\n\n")
+    f.write("| id | demo HEAD / patched | suite with patch | home check when the change arrived | caught by | run but not caught by | what it is |\n|---|---|---|---|---|---|---|\n")
     for r in rows:
-        f.write("| %s | %s / %s | %s | %s | %s | %s |\n" % r)
-    home_missed = [r[0] for r in rows if r[0].split('-')[0] not in r[4]]
+        f.write("| %s | %s / %s | %s | %s | %s | %s | %s |\n" % r)
+    home_missed = [r[0] for r in rows if r[0].split('-')[0] not in r[5]]
     f.write("\nChanges not caught by the check of their own property: %s\n" % (", ".join(home_missed) or "none"))
 print("written", len(rows))
